@@ -22,6 +22,7 @@ func init() {
 			readLineRules(c, "C11")
 			serverUpgraderRules(c, "C11")
 			httpUpgraderRules(c, "C11")
+			httpGetHeaderRules(c, "C11")
 			responseWriterRules(c, "C11")
 			requestWriterRules(c, "C11")
 			dialerUpgradeRules(c, "C11")
